@@ -32,6 +32,11 @@ type ake struct {
 	state authState
 	keys  keyManagementContext
 
+	// session id and role of the exchange in progress; they replace the
+	// reported ones of an established session only when the exchange completes
+	ssid          [8]byte
+	sentRevealSig bool
+
 	lastStateChange time.Time
 }
 
@@ -50,7 +55,17 @@ func (c *Conversation) initAKE() {
 }
 
 func (c *Conversation) calcAKEKeys(s *big.Int) {
-	c.ssid, c.ake.revealKey, c.ake.sigKey = calculateAKEKeys(s, c.version)
+	c.ake.ssid, c.ake.revealKey, c.ake.sigKey = calculateAKEKeys(s, c.version)
+	if c.msgState != encrypted {
+		c.ssid = c.ake.ssid
+	}
+}
+
+func (c *Conversation) setSentRevealSig(v bool) {
+	c.ake.sentRevealSig = v
+	if c.msgState != encrypted {
+		c.sentRevealSig = v
+	}
 }
 
 func (c *Conversation) setSecretExponent(val secretKeyValue) {
